@@ -48,12 +48,23 @@ func (g *gen) qlen(i int) int {
 	return 0
 }
 
+// restart: node i stops and comes back through the fast-sync hand-over (nets with wal=1)
+func (g *gen) restart(i int) string { return g.do(fmt.Sprintf("restart node=%d", i)) }
+
 // own: node i hears the k-th of its own queued messages
 func (g *gen) own(i, k int) string { return g.do(fmt.Sprintf("own node=%d idx=%d", i, k)) }
 
 func newGen(r *rand.Rand, w *world, faulty []int, hrs, wait, interval bool) *gen {
+	return newGenW(r, w, faulty, hrs, wait, interval, false)
+}
+
+// newGenW: wal = the nodes keep a real WAL (FilePV signer) and `restart` ops are real restarts
+func newGenW(r *rand.Rand, w *world, faulty []int, hrs, wait, interval, wal bool) *gen {
 	sort.Ints(faulty)
-	line := netLine(w, faulty, hrs, wait, interval)
+	line := netLine(w, faulty, hrs || wal, wait, interval)
+	if wal {
+		line += " wal=1"
+	}
 	nt := newNet(line)
 	if nt == nil {
 		panic("generator produced a net line the harness rejects: " + line)
@@ -322,6 +333,33 @@ func pickFaulty(r *rand.Rand, w *world) []int {
 // ---- kind happy ----
 
 func genHappy(r *rand.Rand) core.Case { return genHappyQ(r, 0, "happy") }
+
+// genHappyRestart: an ordinary run in which up to three live nodes are restarted at random moments
+func genHappyRestart(r *rand.Rand) core.Case {
+	w := pickWorld(r)
+	var faulty []int
+	if r.Intn(2) == 0 {
+		faulty = pickFaulty(r, w)
+	}
+	g := newGenW(r, w, faulty, true, false, false, true)
+	left := 1 + r.Intn(3)
+	for phase := 0; phase < 6 && !g.allDone(g.correctL); phase++ {
+		g.drive(policy{nodes: g.correctL, chaos: 20, dup: 20}, func() bool { return g.allDone(g.correctL) }, 10+r.Intn(60))
+		if left > 0 {
+			i := g.correctL[r.Intn(len(g.correctL))]
+			if g.live(i) && g.started[i] {
+				g.restart(i)
+				gstat("restart.happy-restarts")
+				left--
+			}
+		}
+	}
+	g.drive(policy{nodes: g.correctL}, func() bool { return g.allDone(g.correctL) }, 300)
+	if g.allDone(g.correctL) {
+		gstat("restart.happy.all-correct-nodes-decided")
+	}
+	return g.finish("restart")
+}
 
 // genHappyQ: nodrain per mille of the node ops leave the node's own messages queued
 func genHappyQ(r *rand.Rand, nodrain int, kind string) core.Case {
@@ -1107,6 +1145,11 @@ func genKind(r *rand.Rand, kind string) core.Case {
 		return genLockedPol(r)
 	case "claim-replay":
 		return genClaimReplay(r)
+	case "restart":
+		if r.Intn(3) == 0 {
+			return genHappyRestart(r)
+		}
+		return genLatePolkaR(r, true)
 	case "own-delay":
 		if r.Intn(2) == 0 {
 			return genHappyQ(r, []int{300, 700, 1000}[r.Intn(3)], "own-delay")
@@ -1145,6 +1188,14 @@ func genAll(r *rand.Rand, tier string, emit func(core.Case)) {
 	}
 	for i := 0; i < nLate/2; i++ {
 		emit(genClaimReplay(r))
+	}
+	// restarts through the real fast-sync hand-over with a real WAL (about 1 s per restart)
+	nRestart := 8
+	if tier == "thorough" {
+		nRestart = 60
+	}
+	for i := 0; i < nRestart; i++ {
+		emit(genKind(r, "restart"))
 	}
 	// own messages heard late / out of order (drain=0 + own ops)
 	for i := 0; i < nLate; i++ {
